@@ -130,7 +130,15 @@ func (e *Env) Bin(name string) string {
 // known findings
 
 func (e *Env) loadFindings() {
-	f, err := os.Open(filepath.Join(e.Verif, "KNOWN_FINDINGS.txt"))
+	e.loadFindingsFile(filepath.Join(e.Verif, "KNOWN_FINDINGS.txt"))
+	// development aid only: lines proposed by a check's author but not yet merged
+	if x := os.Getenv("VERIF_EXTRA_FINDINGS"); x != "" {
+		e.loadFindingsFile(x)
+	}
+}
+
+func (e *Env) loadFindingsFile(path string) {
+	f, err := os.Open(path)
 	if err != nil {
 		return
 	}
